@@ -94,6 +94,7 @@ type Expect struct {
 	Kind string `json:"kind"` // "empty" (list of case indices must be []) | "true"
 	What string `json:"what"` // "mismatch" (model vs impl) | "violation" (spec_b on impl output) | "obligation"
 	Desc string `json:"desc"`
+	KeySuffix string `json:"key_suffix,omitempty"` // appended to the case key of a violation found by this check
 }
 
 type Case struct {
@@ -144,10 +145,13 @@ func (o *Out) WriteFile(name, content string) {
 
 func (o *Out) Stage(files ...string) { o.Plan.Stages = append(o.Plan.Stages, files) }
 func (o *Out) ExpectEmpty(file, name, what, desc string) {
-	o.Plan.Expect = append(o.Plan.Expect, Expect{file, name, "empty", what, desc})
+	o.Plan.Expect = append(o.Plan.Expect, Expect{File: file, Name: name, Kind: "empty", What: what, Desc: desc})
 }
 func (o *Out) ExpectTrue(file, name, what, desc string) {
-	o.Plan.Expect = append(o.Plan.Expect, Expect{file, name, "true", what, desc})
+	o.Plan.Expect = append(o.Plan.Expect, Expect{File: file, Name: name, Kind: "true", What: what, Desc: desc})
+}
+func (o *Out) ExpectEmptyK(file, name, what, desc, suffix string) {
+	o.Plan.Expect = append(o.Plan.Expect, Expect{File: file, Name: name, Kind: "empty", What: what, Desc: desc, KeySuffix: suffix})
 }
 func (o *Out) Oblig(names ...string) { o.Plan.Obligations = append(o.Plan.Obligations, names...) }
 func (o *Out) AddCase(c Case) int {
